@@ -185,7 +185,7 @@ def h_handle_frame(c, kind):
         c.ensure("cids_untouched", len(sc.items) == 0 and len(cc.items) == 0)
 
 
-@harness("C02", "quic.buffered_packets", functions=[QS + ".handle_quic_packet"], cases=[("RETRY",), ("INITIAL",), ("RTT_1",), ("VERSION_NEG",)])
+@harness(["C02", "C16"], "quic.buffered_packets", functions=[QS + ".handle_quic_packet"], cases=[("RETRY",), ("INITIAL",), ("RTT_1",), ("VERSION_NEG",)])
 def h_buffered(c, ptype):
     """every buffered QUIC packet except Retry / Version Negotiation is decrypted exactly once; a Retry restarts the
     handshake state (fresh TLS session, no decryptors, no keys) and nothing else; Initial packets register the
@@ -202,13 +202,22 @@ def h_buffered(c, ptype):
     c.summary_override(QF + ".PseudoVersionNegotiationFrame.__init__", lambda ctx, cls, **k: ctx.make_obj(cls))
     old_tls = c.opaque("tls_session_before")
     old_decs, old_keys = {"Initial": c.opaque("d")}, {"client_initial_hp": c.bytes("hp", length=16)}
-    s = c.obj(QS, packet_buffer_quic=[pkt], tls_session=old_tls, decryptors=old_decs, keys=old_keys, hash_fun=c.opaque("h"), cipher=c.opaque("ci"),
-              key_length=16, alpn=c.opaque("alpn"), server_cids=c.new_set_of([]), client_cids=c.new_set_of([]))
+    s = full_qsession(c, packet_buffer_quic=[pkt], tls_session=old_tls, decryptors=old_decs, keys=old_keys, hash_fun=c.opaque("h"), cipher=c.opaque("ci"),
+                      key_length=16, alpn=c.opaque("alpn"), server_cids=c.new_set_of([]), client_cids=c.new_set_of([]))
+    del fresh_tls[:]                         # (the session's own constructor made one too)
+    # the largest packet numbers received so far, per space and direction (RFC 9000 17.2.5.3: a Retry does NOT reset packet numbers)
+    tables = {n: c.get(s, n) for n in ("packet_number_server", "packet_number_client")}
+    for n, t in tables.items():
+        for k in list(t):
+            t[k] = c.int("largest_%s_%d" % (n[-6:], len(k)) + str(list(t).index(k)), 0, 2 ** 62 - 1)
+    before = {n: dict(t) for n, t in tables.items()}
     out = c.method(s, "handle_quic_packet")
     c.ensure("no_raise", out.exc is None, kind="raises")
     if out.exc is not None:
         return
     g = lambda n: c.get(s, n)
+    c.ensure("largest_received_packet_numbers_untouched", all(g(n) is tables[n] and set(tables[n]) == set(before[n]) and
+                                                              all(c.same_object(tables[n][k], before[n][k]) for k in before[n]) for n in tables))
     c.ensure("buffer_emptied", len(g("packet_buffer_quic")) == 0)
     c.ensure("decrypted_iff_protected_type", (decrypted == [pkt]) == (ptype not in ("RETRY", "VERSION_NEG")) and len(decrypted) <= 1)
     if ptype == "RETRY":
@@ -263,7 +272,7 @@ def h_key_epoch(c, isserver):
     c.ensure("every_epoch_has_its_generation", (g(my_e) < n + gens.appended) & (g(ot_e) < n + gens.appended))
 
 
-@harness(["C15", "C02"], "quic.handle_crypto_frame", functions=[QS + ".handle_crypto_frame"],
+@harness(["C15", "C02", "C14"], "quic.handle_crypto_frame", functions=[QS + ".handle_crypto_frame"],
          cases=[(nd, cr, cs, hs) for nd in (True, False) for cr in (True, False) for cs in (True, False) for hs in (True, False)])
 def h_handle_crypto_frame(c, new_data, has_random, has_suite, has_handshake_keys):
     """RFC 9001 5: the packet protection keys follow the NEGOTIATED suite.  Whenever the TLS parser reports new data and both the
@@ -289,7 +298,13 @@ def h_handle_crypto_frame(c, new_data, has_random, has_suite, has_handshake_keys
     if has_handshake_keys:
         decs["Handshake"] = c.opaque("handshake_keys_of_the_first_offered_suite")
         decs["Application"] = [c.opaque("application_keys_of_the_first_offered_suite")]
-    s = c.obj(QS, tls_session=tls, decryptors=decs, output_buffer=list(earlier), alpn=None, greasy_bit=False)
+    s = full_qsession(c, tls_session=tls, decryptors=decs, output_buffer=list(earlier), alpn=None, greasy_bit=False)
+    if has_handshake_keys:
+        # ... as left by the provisional installation for the suite the client offered first
+        c.set(s, "cipher", c.opaque("aead_of_the_first_offered_suite"))
+        c.set(s, "hash_fun", c.opaque("hash_of_the_first_offered_suite"))
+        c.set(s, "key_length", 32)
+        c.get(s, "keys").update({"client_handshake_hp": c.bytes("old_chp", length=32), "server_handshake_hp": c.bytes("old_shp", length=32)})
     out = c.method(s, "handle_crypto_frame", frame)
     c.ensure("no_raise", out.exc is None, kind="raises")
     if out.exc is not None:
@@ -390,3 +405,57 @@ def h_handle_packet(c, has_initial):
 
 
 h_handle_packet.must_cover = ["returned", "iteration"]
+
+
+@harness(["C02", "C15"], "quic.retry_then_new_handshake", functions=[QS + ".handle_crypto_frame", QS + ".handle_quic_packet"], cases=[(True,), (False,)])
+def h_retry_rehandshake(c, same_hello):
+    """a HISTORY across two functions: keys installed from the first ClientHello, then a Retry (which drops keys, decryptors and TLS
+    state), then the ClientHello again - with the same random and offered suite (RFC 9000 17.2.5: the client repeats its hello) or a
+    different one.  After the second hello the handshake keys must be installed again for the current (client random, suite):
+    nothing remembered from before the Retry may suppress it"""
+    if c.native:
+        return
+    r1, s1 = c.bytes("client_random", length=32), c.bytes("first_offered_suite", length=2)
+    r2, s2 = (r1, s1) if same_hello else (c.bytes("client_random_after_retry", length=32), c.bytes("suite_after_retry", length=2))
+    hello = {"now": (r1, s1)}
+    installs = []
+
+    def s_update(ctx, slf, frame):
+        slf.attrs.update(new_data=True, client_random=hello["now"][0], ciphersuite=hello["now"][1], alpn=None, greasy_bit=False)
+    c.summary_override(QT + ".update_session", s_update)
+    c.summary_override(QT + ".__init__", lambda ctx, cls: ctx.make_obj(cls, new_data=False, client_random=None, ciphersuite=None, alpn=None, greasy_bit=False))
+
+    def s_install(ctx, slf, cr, cs):
+        # contract of set_tls_decryptors for a complete key log (quic.keystate.install.complete_secrets / keys.quic_traffic_installed)
+        installs.append((cr, cs))
+        slf.attrs["decryptors"]["Handshake"] = ctx.opaque("handshake_decryptor")
+        slf.attrs["decryptors"]["Application"] = [ctx.opaque("application_decryptor")]
+        slf.attrs["keys"].update({"client_handshake_hp": ctx.bytes_fresh("chp", 16, 16), "server_handshake_hp": ctx.bytes_fresh("shp", 16, 16)})
+        slf.attrs.update(cipher=ctx.opaque("aead"), hash_fun=ctx.opaque("hash"), key_length=16)
+    c.summary_override(QS + ".set_tls_decryptors", s_install)
+    c.summary_override(QS + ".decrypt_packet", lambda ctx, slf, p: None)
+    s = full_qsession(c)
+    c.set(s, "decryptors", {"Initial": c.opaque("initial")})
+    out = c.method(s, "handle_crypto_frame", c.opaque("client_hello_frame"))
+    c.ensure("no_raise", out.exc is None, kind="raises")
+    if out.exc is not None:
+        return
+    c.ensure("first_hello.keys_installed", len(installs) == 1 and installs[0][0] is r1 and installs[0][1] is s1)
+    retry = c.record("QuicPacket", packet_type=c.enum(PT, "RETRY"), isserver=True, dcid=c.bytes("dcid", max_len=20), scid=c.bytes("scid", max_len=20))
+    c.set(s, "packet_buffer_quic", [retry])
+    out = c.method(s, "handle_quic_packet")
+    c.ensure("no_raise", out.exc is None, kind="raises")
+    if out.exc is not None:
+        return
+    c.ensure("retry.handshake_keys_dropped", "Handshake" not in c.get(s, "decryptors"))
+    hello["now"] = (r2, s2)
+    out = c.method(s, "handle_crypto_frame", c.opaque("client_hello_frame_after_retry"))
+    c.ensure("no_raise", out.exc is None, kind="raises")
+    if out.exc is not None:
+        return
+    c.ensure("after_retry.keys_installed_again_for_the_current_hello", len(installs) == 2 and installs[1][0] is r2 and installs[1][1] is s2
+             and "Handshake" in c.get(s, "decryptors"))
+    c.cover("returned")
+
+
+h_retry_rehandshake.must_cover = ["returned"]
